@@ -573,6 +573,22 @@ func oracleC12(r *rng, n int, tier string) *oracleResult {
 			try(c12Input{ref, b})
 		}
 	}
+	// documents whose location merely CONTINUES the location of the base as a string (spec.json.bak next to spec.json, a folder
+	// spec.json.d): another document, whatever a prefix test says
+	for _, b := range c12Bases {
+		name := b[strings.LastIndex(b, "/")+1:]
+		if name == "" {
+			continue
+		}
+		for _, suf := range []string{".bak", "5", ".d/types.json", "-v2", "%20copy"} {
+			for _, pre := range []string{"", "./"} {
+				try(c12Input{pre + name + suf, b})
+				try(c12Input{pre + name + suf + "#/definitions/x", b})
+			}
+		}
+		try(c12Input{b + ".old", b})
+		try(c12Input{b + ".old#/definitions/x", b})
+	}
 	// random longer references, including escapes that decode to reserved characters
 	segs := []string{"a", "b.c", ".", "..", "%20x", "é", "x%2Fy", "x%2fy", "%2E%2E", "%2e", "q%3Fr", "s%23t", "u%25v", "w+x", "y;z",
 		"...", "..g", "g..", "v1..2", ".h"} // names with dots that are not dot segments (RFC 3986 5.4.2)
